@@ -155,6 +155,23 @@ def b_p4(lits, ks, free=True):
     return build
 
 
+def b_nonpure(ch):
+    """union whose members are all intersections that contain a union (written out or from +macrobody):
+    the only shape that goes through the union helper planes"""
+    st = St('c01 nonpure union')
+    small = [2, -2, 4, -4]
+    unions = [6] + [(':', c, d) for c in small for d in small]
+    l1 = ch.choose('l1', [1, -1, 2, -3], free=True)
+    u1 = ch.choose('u1', unions, free=True)
+    l2 = ch.choose('l2', [3, -3, -1, 4], free=True)
+    u2 = ch.choose('u2', unions, free=True)
+    e = (':', ('*', l1, u1), ('*', l2, u2))
+    if ch.choose('rootcompl', [False, True], free=True):
+        e = ('#', e)
+    imps = ch.choose('imps', IMPS2, free=True)
+    return finish_deck(st, [(1, e), (2, ('^', 1))], imps)
+
+
 def b_chain(free=False):
     """#n of a cell that itself uses #m and #( ): complement chains."""
     def build(ch):
@@ -182,6 +199,7 @@ def scenarios(tier):
             Scn('p3-k2', b_p3(LITS3, [1, 2]), None, None, 'three cells, k<=2 per cell'),
             Scn('p2-curved-k2', b_p2(LITSC, [1, 2], compl_inner=True), None, None,
                 'sphere, cylinder, one-sheet cones (surface collections) and planes, k<=2; witnesses + lattice'),
+            Scn('nonpure-union', b_nonpure, None, None, 'unions of intersections that contain unions (helper planes)'),
             Scn('p4-k3', b_p4(LITS4, [1, 2, 3], free=False), 2, 3, 'explicit De Morgan partner'),
             Scn('chain', b_chain(), 2, 3, 'complement chains #n of #m'),
         ]
@@ -195,6 +213,7 @@ def scenarios(tier):
         Scn('p2-curved-k3', b_p2(LITSC, [1, 2, 3], compl_inner=False), None, None,
             'sphere, cylinder, one-sheet cones and planes, k<=3; witnesses + lattice'),
         Scn('p3-k2', b_p3(LITS4, [1, 2]), None, None, 'three cells, k<=2 per cell'),
+        Scn('nonpure-union', b_nonpure, None, None, 'unions of intersections that contain unions (helper planes)'),
         Scn('p4-k3', b_p4(LITS4, [1, 2, 3]), None, None, 'explicit De Morgan partner, full'),
         Scn('chain', b_chain(), 4, 4, 'complement chains #n of #m'),
     ]
